@@ -1,26 +1,26 @@
-(* C08 — statements the faithful model falsifies (each is a recorded finding, see
-   known_findings.d/C08.json), with concrete witnesses. *)
+(* C08 — statements falsified by the behaviour of /repo BEFORE the fixes 23cb098 / 6125c3c (modelled by the
+   explicitly named *_old definitions of Model.v), with concrete witnesses.  Nothing here is about current code. *)
 From Coq Require Import List ZArith Bool Arith.
 Import ListNotations.
 From SFV Require Import C08.Model C08.Proofs C08.ProofsPS C08.ProofsFock C08.ProofsMain.
 Open Scope nat_scope.
 
-(* GaussianBackend.state() after deleting a mode that is not the last one: labels q[1], q[2] but
-   the data of slots 0 and 1 *)
+(* OLD GaussianBackend.state() (before /repo 23cb098) after deleting a mode that is not the last one:
+   labels q[1], q[2] but the data of slots 0 and 1 *)
 Definition gauss_witness : list op := [Disp 0 1%Z; Disp 1 2%Z; Disp 2 3%Z; Del [0]].
 
-Lemma gauss_state_refuted :
-  exists n h, gauss_state (snd (gauss_run n h)) <> view (spec_run n h)
-              /\ map fst (gauss_state (snd (gauss_run n h))) = map fst (view (spec_run n h)).
+Lemma gauss_state_old_refuted :
+  exists n h, gauss_state_old (snd (gauss_run n h)) <> view (spec_run n h)
+              /\ map fst (gauss_state_old (snd (gauss_run n h))) = map fst (view (spec_run n h)).
 Proof. exists 3, gauss_witness. split; [vm_compute; discriminate | vm_compute; reflexivity]. Qed.
 
-(* BosonicModes.add_mode for two modes: one `active` entry *)
-Lemma bos_agree_refuted :
-  exists n h, ps_modes (snd (bos_run n h)) <> slives (spec_run n h)
-              /\ prog_register (fst (bos_run n h)) = slives (spec_run n h).
+(* OLD BosonicModes.add_mode (before /repo 6125c3c) for two modes: one `active` entry *)
+Lemma bos_agree_old_refuted :
+  exists n h, ps_modes (snd (bos_run_old n h)) <> slives (spec_run n h)
+              /\ prog_register (fst (bos_run_old n h)) = slives (spec_run n h).
 Proof. exists 1, [New 2]. split; [vm_compute; discriminate | vm_compute; reflexivity]. Qed.
 
-(* ... and the last new index is then rejected by the simulator although the register holds it *)
-Lemma bos_accept_refuted :
-  exists n h o s', sstep (spec_run n h) o = Some s' /\ snd (pstep ps bos_step (bos_run n h) o) = Err IndexError.
+(* ... and the last new index was then rejected by the simulator although the register holds it *)
+Lemma bos_accept_old_refuted :
+  exists n h o s', sstep (spec_run n h) o = Some s' /\ snd (pstep ps bos_step_old (bos_run_old n h) o) = Err IndexError.
 Proof. exists 1, [New 2], (Disp 2 1%Z), [Some 0%Z; Some 0%Z; Some 1%Z]. split; vm_compute; reflexivity. Qed.
